@@ -23,6 +23,8 @@ import (
 	"github.com/cloudflare/pint/verifharness/gitrepo"
 )
 
+var ghPaths = []string{"a.yml", "b.yml", "c.yml", "drafts/d.yml"}
+
 type ghNS struct {
 	Status string `json:"status"`
 	Src    string `json:"src"`
@@ -47,12 +49,12 @@ func ghRun(pint, cfg string, id int, raw json.RawMessage) ([]map[string]any, err
 		return nil, err
 	}
 	var rawCase struct {
-		Log  []json.RawMessage `json:"log"`
+		Log []json.RawMessage `json:"log"`
 	}
 	_ = json.Unmarshal(raw, &rawCase)
 	// the trace always names the three paths of the family; files without rules carry an empty list
 	forkOut := map[string]gitrepo.File{}
-	for _, p := range []string{"a.yml", "b.yml", "c.yml"} {
+	for _, p := range ghPaths {
 		f := cs.Fork[p]
 		if f.Rules == nil {
 			f.Rules = []gitrepo.Rule{}
@@ -70,8 +72,10 @@ func ghRun(pint, cfg string, id int, raw json.RawMessage) ([]map[string]any, err
 		return nil, err
 	}
 	mainTree := map[string]gitrepo.File{}
+	headTree := map[string]gitrepo.File{}
 	for p, f := range cs.Fork {
 		mainTree[p] = f
+		headTree[p] = f
 		if f.Present {
 			if err := repo.Write(p, gitrepo.Render(f)); err != nil {
 				return nil, err
@@ -108,6 +112,7 @@ func ghRun(pint, cfg string, id int, raw json.RawMessage) ([]map[string]any, err
 			}
 		case "A", "M":
 			nBranch++
+			headTree[op.NS.Dst] = op.File
 			if err := repo.Write(op.NS.Dst, gitrepo.Render(op.File)); err != nil {
 				return nil, err
 			}
@@ -116,6 +121,7 @@ func ghRun(pint, cfg string, id int, raw json.RawMessage) ([]map[string]any, err
 			}
 		case "D":
 			nBranch++
+			delete(headTree, op.NS.Src)
 			if err := os.Remove(filepath.Join(repo.Dir, op.NS.Src)); err != nil {
 				return nil, err
 			}
@@ -124,6 +130,11 @@ func ghRun(pint, cfg string, id int, raw json.RawMessage) ([]map[string]any, err
 			}
 		case "R":
 			nBranch++
+			headTree[op.NS.Dst] = headTree[op.NS.Src]
+			delete(headTree, op.NS.Src)
+			if err := os.MkdirAll(filepath.Dir(filepath.Join(repo.Dir, op.NS.Dst)), 0o755); err != nil {
+				return nil, err
+			}
 			if _, err := repo.Git("mv", op.NS.Src, op.NS.Dst); err != nil {
 				return nil, err
 			}
@@ -180,7 +191,17 @@ func ghRun(pint, cfg string, id int, raw json.RawMessage) ([]map[string]any, err
 	if other == nil {
 		other = []string{}
 	}
-	recs = append(recs, rec{"ev": "Finish", "id": id, "rc": res.RC, "markers": markers, "deps": deps, "other": other})
+	// where the harness itself put the rules of the HEAD files (counted while rendering)
+	layout := []map[string]any{}
+	for _, p := range ghPaths {
+		if f, ok := headTree[p]; ok && f.Present {
+			_, spans := gitrepo.RenderSpans(f)
+			for k, sp := range spans {
+				layout = append(layout, map[string]any{"path": p, "k": k + 1, "first": sp.First, "last": sp.Last})
+			}
+		}
+	}
+	recs = append(recs, rec{"ev": "Finish", "id": id, "rc": res.RC, "markers": markers, "deps": deps, "other": other, "layout": layout})
 	return recs, nil
 }
 
